@@ -124,6 +124,9 @@ def _gen_script(rng, kind, faulty):
     if f == "launch":
         # "interrupt": a signal (Ctrl-C) reaches the caller's thread while start() is launching the program
         s["launch"] = rng.choice(["enoent", "eacces", "eagain", "interrupt"])
+        # which asynchronous exception an "interrupt" delivers: Ctrl-C, sys.exit() from a SIGTERM handler, or another
+        # BaseException (asyncio.CancelledError, a test runner's timeout)
+        s["intr_class"] = rng.choice(["KeyboardInterrupt", "KeyboardInterrupt", "SystemExit", "BaseException"])
         if kind == "stublocal" and rng.random() < 0.4:
             # the launch itself works, but a step of the subclass' run() after it raises: the run has ended as well
             s["launch"] = "ok"
@@ -302,6 +305,7 @@ def generate(rng):
             if faulty and rng.random() < 0.08:
                 # a signal interrupts the caller while it waits in join(), this many simulated seconds into the wait
                 ops[-1]["intr"] = rng.choice([0.0, 0.05, 0.3, 2.0, 20.0])
+                ops[-1]["intr_class"] = rng.choice(["KeyboardInterrupt", "KeyboardInterrupt", "SystemExit", "BaseException"])
             elif s["st"] == RUNNING:
                 s["st"] = "ENDED"
         elif choice == "cancel":
@@ -1160,14 +1164,14 @@ class Sim:
             self.res.stats["fault:exec-dir-missing"] += 1
         elif script["launch"] != "ok":
             expect_fail = {"enoent": FileNotFoundError, "eacces": PermissionError, "eagain": OSError,
-                           "interrupt": sw.InjectedInterrupt}[script["launch"]]
+                           "interrupt": sw.INJECTED_CLASSES}[script["launch"]]
             if rec.exec_dir_path is not None:
                 self.res.stats["probe:launch-failed-with-execdir"] += 1
         elif script.get("post_launch") == "fail" and rec.kind == "stublocal":
             expect_fail = RuntimeError
             self.res.stats["fault:run-fails-after-launch"] += 1
         elif script.get("post_launch") == "interrupt" and rec.kind == "stublocal":
-            expect_fail = sw.InjectedInterrupt
+            expect_fail = sw.INJECTED_CLASSES
             self.res.stats["fault:interrupt-after-launch"] += 1
         ctrl = self.ctrl_for(rec) if self.real else None
         st, val = call(fn)
@@ -1187,8 +1191,9 @@ class Sim:
             if st == "ok":
                 self.fail("start:launch-failure-swallowed", kind=rec.kind, launch=script["launch"])
             if not isinstance(val, expect_fail):
-                self.fail("start:wrong-exception", kind=rec.kind, got=exc_name(val), expected=expect_fail.__name__, msg=str(val)[:200])
-            if expect_fail is sw.InjectedInterrupt and str(getattr(rec.app, "_state", "")).endswith("CREATED") \
+                self.fail("start:wrong-exception", kind=rec.kind, got=exc_name(val),
+                          expected=getattr(expect_fail, "__name__", "injected interrupt"), msg=str(val)[:200])
+            if expect_fail is sw.INJECTED_CLASSES and str(getattr(rec.app, "_state", "")).endswith("CREATED") \
                     and not any(p.alive() for p in rec.procs) and rec.cleanups == 0:
                 # an interrupted launch that leaves the wrapper exactly as it was (still CREATED, nothing launched,
                 # nothing released) has not started a run; the caller may try again. Accepted next to "the run has
@@ -1315,6 +1320,7 @@ class Sim:
         intr = op.get("intr") if not self.real else None
         if intr is not None:
             world.interrupt_at = world.now + intr
+            world.interrupt_class = sw.INJECTED[op.get("intr_class", "KeyboardInterrupt")]
         elif hang and to is None:
             raise InvalidSpec("join without timeout on a tool that never exits")
         if self.real:
@@ -1335,7 +1341,7 @@ class Sim:
         else:
             st, val = call(fn, *args, **kwargs)
         world.interrupt_at = None
-        if st == "exc" and isinstance(val, sw.InjectedInterrupt):
+        if st == "exc" and isinstance(val, sw.INJECTED_CLASSES):
             # the wait was interrupted before the run had ended. Two coherent outcomes: the wrapper is exactly as
             # before (the caller may join again or cancel), or it took the interrupt as a cancellation and released
             # everything; the resource invariants after this step tell a half-way state from both
@@ -1647,7 +1653,7 @@ def make_stub_local(bin_path, script=None):
             if script.get("post_launch") == "fail":
                 raise RuntimeError("a step of run() after the launch failed")
             if script.get("post_launch") == "interrupt":
-                raise sw.InjectedInterrupt()
+                raise sw.injected(script)
 
     return StubLocalApp(bin_path)
 
@@ -1680,7 +1686,7 @@ def make_stub_poll(sim, rec):
             if script["launch"] != "ok":
                 world.stats[f"fault:launch-{script['launch']}"] += 1
                 if script["launch"] == "interrupt":
-                    raise sw.InjectedInterrupt()
+                    raise sw.injected(script)
                 raise {"enoent": FileNotFoundError, "eacces": PermissionError, "eagain": BlockingIOError}[script["launch"]](script["launch"])
             f = tempfile.NamedTemporaryFile("w", suffix=".job", delete=False)
             f.close()
